@@ -440,7 +440,81 @@ pub fn run(ctx: &mut Ctx) {
             i += 1;
         }
     }
+    if ctx.mine(700_000 + i) {
+        external_commit_removals(&base[0], ctx);
+    }
     if ctx.shard.0 == 0 {
         ctx.sample(json!({"adversarial_committer": "TwoRemovesOfOneLeaf", "expect": "every receiver refuses and is unchanged"}));
+    }
+}
+
+/// External commits that remove a leaf: RFC 9420 12.4.3.2 allows at most one Remove in an
+/// external commit and only of a leaf with the joiner's own identity (re-sync). An ex-member that
+/// comes back may remove its old leaf if it is still there; an outsider that "removes" somebody
+/// else's leaf must be refused by every member (leniently built where the library would not
+/// build it itself).
+fn external_commit_removals(base: &World, ctx: &mut Ctx) {
+    let members = base.members();
+    let outs = base.outsiders();
+    for &victim in &members {
+        for lenient_on in [false, true] {
+            let mut w = base.clone();
+            let joiner = outs[0];
+            let label = format!("external commit by outsider {} that removes the leaf of member {} (lenient filter {lenient_on})", w.parties[joiner].name, w.parties[victim].name);
+            ctx.cur_trail = vec![label.clone()];
+            let table = std::mem::take(&mut w.stores);
+            stores::install(table);
+            let r = std::panic::catch_unwind(std::panic::AssertUnwindSafe(|| {
+                let Some(&helper) = members.iter().find(|m| **m != victim) else { return };
+                let Ok(gi) = w.g(helper).group_info_message_allowing_ext_commit(true) else { return };
+                let Ok(mut b) = w.parties[joiner].client.external_commit_builder() else { return };
+                b = b.with_removal(w.leaf_of(victim));
+                if let Some(t) = w.now() {
+                    b = b.commit_time(t);
+                }
+                lenient::set(lenient_on);
+                let built = b.build(gi);
+                lenient::set(false);
+                ctx.eval();
+                let msg = match built {
+                    Ok((_g, m)) => m,
+                    Err(e) => {
+                        ctx.outcome(format!("external-removal-of-other-member:build-refused:{}", err_name(&e)));
+                        ctx.goal("external-commit-removing-another-member");
+                        return;
+                    }
+                };
+                ctx.goal("external-commit-removing-another-member");
+                for &p in &members {
+                    let pre = effective(w.g(p), p as u32);
+                    ctx.eval();
+                    match w.process(p, &msg) {
+                        Ok(_) => ctx.violation(
+                            "external-commit-removing-another-identity-accepted",
+                            format!("{} accepted an external commit in which the new member removes the leaf of {}, whose identity is not the joiner's [{label}]", w.parties[p].name, w.parties[victim].name),
+                        ),
+                        Err(e) => {
+                            ctx.outcome(format!("external-removal-of-other-member:refused:{}", err_name(&e)));
+                            let post = effective(w.g(p), p as u32);
+                            let d = diff(&pre, &post, &[]);
+                            if !d.is_empty() {
+                                ctx.violation(format!("refusing-member-changed|external-removal|{}|{}", err_name(&e), diff_classes(&d)), format!("{d:?} [{label}]"));
+                            }
+                        }
+                    }
+                }
+            }));
+            lenient::set(false);
+            let _ = stores::uninstall();
+            ctx.report.transitions += 1;
+            if r.is_err() {
+                let (loc, msg, lib) = take_panic();
+                if lib {
+                    ctx.violation(format!("panic|external-removal|{loc}"), format!("library panicked: {msg} [{label}]"));
+                } else {
+                    crate::engine::machinery(&format!("harness panic at {loc}: {msg}"));
+                }
+            }
+        }
     }
 }
